@@ -59,10 +59,15 @@ UNENCODABLE = [("float-comment", {"comment": {"unencodable": "float"}}),
                ("set-in-list", {"url-list": [{"unencodable": "float"}]})]
 
 
-def run_one(workdir, mf_src, req, fault):
-    """copy the metafile into a fresh directory, run the edit under the fault; returns dict"""
+# the name of the metafile being edited: the property holds for every name (a temp-file name derived from it by string
+# replacement coincides with the metafile itself when the name lacks the expected suffix)
+MF_NAMES = ["m.torrent", "upper.TORRENT", "noext", "m.torrent", "a.torrent.bak"]
+
+
+def run_one(workdir, mf_src, req, fault, name="m.torrent"):
+    """copy the metafile into a fresh directory under `name`, run the edit under the fault; returns dict"""
     os.makedirs(workdir)
-    mf = os.path.join(workdir, "m.torrent")
+    mf = os.path.join(workdir, name)
     shutil.copyfile(mf_src, mf)
     trace = workdir + ".trace"
     p = subprocess.run([core.PY, RUNNER, mf, json.dumps(req), json.dumps(fault), trace],
@@ -190,14 +195,18 @@ def run(ctx, model_ok):
         reqs = REQUESTS if ctx.tier == "thorough" else REQUESTS[:2]
         jobs = []
         n = 0
+        pair = -1
         for label, mf in metas:
             old = oracle.read(mf)
             for rname, req in reqs:
                 # reference run: no fault
                 n += 1
-                ref = run_one(os.path.join(tmp, f"w{n}"), mf, req, {"kind": "none"})
+                pair += 1
+                mfname = MF_NAMES[pair % len(MF_NAMES)]
+                ref = run_one(os.path.join(tmp, f"w{n}"), mf, req, {"kind": "none"}, name=mfname)
                 if ref["rc"] != 0 or ref["after"] is None:
-                    ctx.fail("edit-failed-without-fault", {"metafile": label, "request": req, "base_hex": old.hex()}, "edit succeeds", ref["out"])
+                    ctx.fail("edit-failed-without-fault", {"metafile": label, "request": req, "base_hex": old.hex(), "metafile_name": mfname},
+                             "edit succeeds and leaves the edited metafile at its path", ref["out"] or f"rc={ref['rc']} metafile present={ref['after'] is not None}")
                     continue
                 new = ref["after"]
                 obs = canon_events(ref["events"])
@@ -209,7 +218,7 @@ def run(ctx, model_ok):
                     if obs != exp:
                         ctx.disagree("generated op list of edit_torrent vs observed filesystem events",
                                      {"metafile": label, "request": req, "base_hex": old.hex()}, exp, obs)
-                if ref["left"] != ["m.torrent"]:
+                if ref["left"] != [mfname]:
                     ctx.notes.append(f"files left beside the metafile after a successful edit: {ref['left']}")
                 nev = len(ref["events"])
                 replace_idx = next((e["i"] for e in ref["events"] if e["op"] in ("replace", "rename") and "PM" in e["paths"][1:]), None)
@@ -230,14 +239,14 @@ def run(ctx, model_ok):
                         faults.append({"kind": "rlimit", "bytes": nbytes, "ignore_signal": False})
                 for f in faults:
                     n += 1
-                    jobs.append((os.path.join(tmp, f"w{n}"), label, mf, rname, req, f, old, new, replace_idx))
+                    jobs.append((os.path.join(tmp, f"w{n}"), label, mf, rname, req, dict(f, metafile_name=mfname), old, new, replace_idx))
             for rname, req in (UNENCODABLE if ctx.tier == "thorough" else UNENCODABLE[:2]):
                 n += 1
                 jobs.append((os.path.join(tmp, f"w{n}"), label, mf, rname, req, {"kind": "none", "unencodable": True}, old, None, None))
 
         def work(job):
             wd, label, mf, rname, req, f, old, new, ridx = job
-            return job, run_one(wd, mf, req, f)
+            return job, run_one(wd, mf, req, f, name=f.get("metafile_name", "m.torrent"))
         with ThreadPoolExecutor(max_workers=12) as ex:
             results = list(ex.map(work, jobs))
         for job, r in results:
@@ -323,10 +332,10 @@ def _base(tmp, base):
     return src
 
 
-def _reference(tmp, base, req):
+def _reference(tmp, base, req, name="m.torrent"):
     """fault-free run on a copy of the recorded metafile: (result, replace index)"""
     k = len(os.listdir(tmp))
-    ref = run_one(os.path.join(tmp, f"ref{k}"), _base(tmp, base), req, {"kind": "none"})
+    ref = run_one(os.path.join(tmp, f"ref{k}"), _base(tmp, base), req, {"kind": "none"}, name=name)
     ridx = next((e["i"] for e in ref["events"] if e["op"] in ("replace", "rename") and "PM" in e["paths"][1:]), None)
     return ref, ridx
 
@@ -336,13 +345,13 @@ def _replay_fault(inp, tmp):
     print(f"[C17 replay] metafile {inp.get('metafile')} ({len(base)} bytes), request {json.dumps(req)}, fault {json.dumps(f)}")
     new = ridx = None
     if not f.get("unencodable"):
-        ref, ridx = _reference(tmp, base, req)
+        ref, ridx = _reference(tmp, base, req, name=inp.get("metafile_name") or f.get("metafile_name", "m.torrent"))
         if ref["rc"] != 0 or ref["after"] is None:
             print(f"[C17 replay] VIOLATION edit-failed-without-fault: exit {ref['rc']} {ref['out']}")
             return 1
         new = ref["after"]
         print(f"[C17 replay] fault-free run: {len(new)} bytes written, operations {canon_events(ref['events'])}, replace at index {ridx}")
-    r = run_one(os.path.join(tmp, "fault"), _base(tmp, base), req, f)
+    r = run_one(os.path.join(tmp, "fault"), _base(tmp, base), req, f, name=inp.get("metafile_name") or f.get("metafile_name", "m.torrent"))
     ok, why = judge(f, r, base, new, ridx)
     after = r["after"]
     print(f"[C17 replay] under the fault: exit {r['rc']} {r['out']!r}; operations reached {canon_events(r['events'])}; metafile path holds "
